@@ -216,3 +216,22 @@ Proof.
   assert (dur * rate c < 2 ^ 64 * 2 ^ 128) by nia.
   assert (2 ^ 64 * 2 ^ 128 <= 10 ^ 20 * 2 ^ 128) by (vm_compute; discriminate). lia.
 Qed.
+
+(* ... and the whole action never fails there: the amount is below 2^64*2^128/10^20 < 2^127 *)
+Lemma execute_never_fails_u128 c s now : 0 <= rate c < 2 ^ 128 -> 0 <= minp c ->
+  wf_st 128 s -> 0 <= now < 2 ^ 64 ->
+  exists rep s', execute 128 (10 ^ 20) c s now = (Ok rep, s').
+Proof.
+  intros Hr Hm Hs Hn.
+  destruct (execute 128 (10 ^ 20) c s now) as [[rep|e] s'] eqn:E; [eauto|exfalso].
+  apply execute_err in E; [|lia|lia|split; lia|exact Hs].
+  destruct Hs as [Hp Hl].
+  assert (Hd : 0 <= elapsed s now < 2 ^ 64) by (unfold elapsed; lia).
+  assert (HB : elapsed s now * rate c / 10 ^ 20 < 2 ^ 127).
+  { apply Z.div_lt_upper_bound; [lia|].
+    assert (elapsed s now * rate c < 2 ^ 64 * 2 ^ 128) by nia.
+    assert (2 ^ 64 * 2 ^ 128 <= 10 ^ 20 * 2 ^ 127) by (vm_compute; discriminate). lia. }
+  destruct E as (_ & _ & _ & _ & [[_ H]|[_ [_ H]]]).
+  - assert (2 ^ 127 < 2 ^ 128) by (vm_compute; reflexivity). lia.
+  - unfold expected in H. change (128 - 1) with 127 in H. lia.
+Qed.
